@@ -392,9 +392,16 @@ impl CommandBuilderOptions {
             ExecAction::Echo => vec![OsStr::new("echo")],
         };
 
-        for arg in initial_args {
+        for (i, arg) in initial_args.into_iter().enumerate() {
+            // With -I the arguments are not run as written: what stands for the
+            // line takes no room until a line is put in (the command line is
+            // held against the limits again then).
+            let arg = match &replace {
+                Some(replace_str) if i > 0 => replace_all(arg, replace_str, OsStr::new("")),
+                _ => arg.to_owned(),
+            };
             limiters.try_arg(Argument {
-                arg: arg.to_owned(),
+                arg,
                 kind: ArgumentKind::Initial,
             })?;
         }
